@@ -35,9 +35,11 @@ REGISTRATION = {
     "design_ref": "DESIGN.md §5 C16",
     "note": COMMON_NOTE + "GGML.GraphSize (KV-cache figures incl. the float64 detour, the per-architecture graph formulas) "
             "is inside the model (graphSize, tied exactly by the c16graph stream on all architectures of its switch, q8_0/q4_0 "
-            "cache types, wrapping products); the estimator stream still receives these figures from the real GraphSize. "
+            "cache types, wrapping products), and so are llm.projectorMemoryRequirements and GGML.VisionGraphSize (projReq, "
+            "visionGraphSize: weight sums, patch arithmetic, the mllama / gemma3 graph formulas, the division by a zero patch "
+            "size; c16proj / c16vision streams); the estimator stream still receives these figures from the real functions. "
             "Inputs of the model, recomputed by the driver with the functions the estimator calls: tensor / layer sizes "
-            "(GroupLayers, Tensor.Size), projector requirements, VisionGraphSize, OLLAMA_GPU_OVERHEAD. Flash attention is off "
+            "(GroupLayers, Tensor.Size), OLLAMA_GPU_OVERHEAD. Flash attention is off "
             "in the estimator driver (GPU discovery); the cache types are exercised on GraphSize directly. The allocation "
             "theorems hold under an explicit no-wrap-around guard (noWrap_of_small_raw gives it from bounds on the raw "
             "inputs); without it the clause is false of the code (finding W1, repaired in /repo by cdbdf6013, and the "
@@ -89,6 +91,11 @@ THEOREMS = [
     "OllamaVerif.C16.graphSize_kv_length",
     "OllamaVerif.C16.kvBytes_exact",
     "OllamaVerif.C16.layers_le_block_count",
+    # the bound the code really enforces (reservation of the larger graph); no empty list reaches the estimator
+    "OllamaVerif.C16.alloc_with_reserve_partial",
+    "OllamaVerif.C16.load_list_nonempty",
+    "OllamaVerif.C16.projReq_panics_iff",
+    "OllamaVerif.C16.visionGraphSize_no_blocks",
     # Tie 1: the estimator variant found in the tree (compile only while fix cdbdf6013 of finding W1 is in the tree)
     "OllamaVerif.Tie.C16.tree_subtracts_overhead",
     "OllamaVerif.Tie.C16.tree_alloc_le_free",
@@ -132,6 +139,8 @@ REQUIRED_BRANCHES = {
               "graph_arch_command-r", "graph_arch_qwen2", "graph_arch_phi2", "graph_arch_stablelm", "graph_arch_deepseek2",
               "graph_arch_chatglm", "graph_arch_verifarch", "graph_kvct_q8_0", "graph_kvct_q4_0", "graph_kv_float_rounding",
               "graph_wrap_likely"],
+    "vision": ["vision_arch_clip", "vision_arch_mllama", "vision_arch_gemma3", "vision_arch_mistral3", "vision_arch_llama",
+               "vision_proj_panic_patch0", "vision_patch0", "vision_with_blocks", "vision_class_embd"],
     "load": ["load_decision_full", "load_decision_partial", "load_decision_evict", "load_decision_delay",
              "load_on_lowered_free", "load_multi_gpu", "load_with_loading_runner", "load_runners_0", "load_runners_2",
              "load_p_1", "load_p_4", "load_forced_parallel_1"],
@@ -178,11 +187,13 @@ def run(ctx):
     ctx.lean_check(MODULES, THEOREMS)
     if ctx.replay:
         env["VERIF_REPLAY"] = ctx.replay_line_file()
-    sched_only = pick_only = load_only = graph_only = False
+    sched_only = pick_only = load_only = graph_only = vision_only = False
     if ctx.replay:
         raw = open(env["VERIF_REPLAY"]).read().replace(" ", "")
         load_only = raw.startswith('{"kind":"load"')
         graph_only = raw.startswith('{"kind":"graph"')
+        vision_only = raw.startswith('{"kind":"vision"')
+        graph_only = graph_only or vision_only      # (skips the estimator / scheduler drivers below)
         sched_only = not load_only and not graph_only and '"kind":"sched"' in raw
         pick_only = not load_only and not graph_only and '"kind":"pick"' in raw
     if only == "load":
@@ -194,7 +205,18 @@ def run(ctx):
         ctx.violation("development-run", "", "VERIF_DEV=1 with VERIF_C16_ONLY=%r VERIF_C16_VARIANT=%r: drivers skipped / model "
                       "variant pinned; not a verdict about the tree" % (only, pinned_variant), no_input=True)
     # GGML.GraphSize: the derived inputs kv[i] / partialOffload / fullOffload as a function of the model file
-    if not ctx.replay and only in ("", "graph") or graph_only:
+    if not ctx.replay and only in ("", "graph") or vision_only:
+        envv = dict(env)
+        envv["VERIF_N"] = ctx.scale(1500, 30000)
+        rc, out, outdir = ctx.go_test("./llm/", OVERLAY, "^TestVerifC16Vision$", env=envv, timeout=1500)
+        if rc != 0:
+            ctx.violation("driver-failed", "", out[-1500:], no_input=True)
+        st = ctx.read_stats(outdir)
+        ctx.l1(outdir, label="L1-vision")
+        ctx.classify(ctx.l2(outdir))
+        if not ctx.replay:
+            coverage_gate(ctx, "vision", st)
+    if (not ctx.replay and only in ("", "graph") or graph_only) and not vision_only:
         envg = dict(env)
         envg["VERIF_N"] = ctx.scale(3000, 60000)
         rc, out, outdir = ctx.go_test("./llm/", OVERLAY, "^TestVerifC16Graph$", env=envg, timeout=1500)
